@@ -18,6 +18,15 @@ def writers(ty):
          ('byref', ['PROCEDURE w(BYREF p : %s)' % ty, '  p <- %s' % o, 'ENDPROCEDURE', ''], ['CALL w(c)']),
          ('byref-chain', ['PROCEDURE w2(BYREF q : %s)' % ty, '  q <- %s' % o, 'ENDPROCEDURE', '', 'PROCEDURE w(BYREF p : %s)' % ty, '  CALL w2(p)', 'ENDPROCEDURE', ''], ['CALL w(c)']),
          ('byref-input', ['PROCEDURE w(BYREF p : %s)' % ty, '  INPUT p', 'ENDPROCEDURE', ''], ['CALL w(c)', 'x']),
+         # the same channels through FUNCTIONs (called in an OUTPUT list, in an assignment, as a bare expression)
+         ('byref-function', ['FUNCTION w(BYREF p : %s) RETURNS INTEGER' % ty, '  p <- %s' % o, '  RETURN 1', 'ENDFUNCTION', ''], ['OUTPUT w(c)']),
+         ('byref-function-expr', ['FUNCTION w(BYREF p : %s) RETURNS INTEGER' % ty, '  p <- %s' % o, '  RETURN 1', 'ENDFUNCTION', '', 'DECLARE r : INTEGER'], ['r <- w(c) + 1']),
+         ('byref-function-chain', ['PROCEDURE w2(BYREF q : %s)' % ty, '  q <- %s' % o, 'ENDPROCEDURE', '', 'FUNCTION w(BYREF p : %s) RETURNS INTEGER' % ty, '  CALL w2(p)', '  RETURN 1', 'ENDFUNCTION', ''], ['OUTPUT w(c)']),
+         ('byref-function-from-procedure', ['FUNCTION w2(BYREF q : %s) RETURNS INTEGER' % ty, '  q <- %s' % o, '  RETURN 1', 'ENDFUNCTION', '', 'PROCEDURE w(BYREF p : %s)' % ty, '  OUTPUT w2(p)', 'ENDPROCEDURE', ''], ['CALL w(c)']),
+         ('byref-function-input', ['FUNCTION w(BYREF p : %s) RETURNS INTEGER' % ty, '  INPUT p', '  RETURN 1', 'ENDFUNCTION', ''], ['OUTPUT w(c)', 'x']),
+         ('byref-function-second-param', ['FUNCTION w(BYVAL k : INTEGER, BYREF p : %s) RETURNS INTEGER' % ty, '  p <- %s' % o, '  RETURN k', 'ENDFUNCTION', ''], ['OUTPUT w(3, c)']),
+         ('in-function', ['FUNCTION w() RETURNS INTEGER', '  c <- %s' % o, '  RETURN 1', 'ENDFUNCTION', ''], ['OUTPUT w()']),
+         ('pointer-in-function', ['TYPE P = ^%s' % ty, 'DECLARE p : P', 'p <- ^c', 'FUNCTION w() RETURNS INTEGER', '  p^ <- %s' % o, '  RETURN 1', 'ENDFUNCTION', ''], ['OUTPUT w()']),
          ('pointer', ['TYPE P = ^%s' % ty, 'DECLARE p : P', 'p <- ^c'], ['p^ <- %s' % o]),
          ('pointer-copy', ['TYPE P = ^%s' % ty, 'DECLARE p : P', 'DECLARE q : P', 'p <- ^c', 'q <- p'], ['q^ <- %s' % o]),
          ('pointer-input', ['TYPE P = ^%s' % ty, 'DECLARE p : P', 'p <- ^c'], ['INPUT p^', 'v']),
@@ -53,7 +62,7 @@ def case_for(ty, litv, w, mode, op='='):
     prog = ['CONSTANT c %s %s' % (op, litv)] + [s for s in setup if s != ''] + ['OUTPUT "before ", c']
     stdin = []
     for a in attempt:
-        if a and (a.split(' ')[0] in ('c', 'INPUT', 'READ', 'CALL', 'p^', 'q^', 'h.ptr^', 'ps[2]^', 'pp^^', 'DECLARE', 'CONSTANT', 'GETRECORD', 'READFILE', 'FOR', 'NEXT', ' ', '') or a.startswith('  ')):
+        if a and (a.split(' ')[0] in ('c', 'INPUT', 'READ', 'CALL', 'OUTPUT', 'r', 'p^', 'q^', 'h.ptr^', 'ps[2]^', 'pp^^', 'DECLARE', 'CONSTANT', 'GETRECORD', 'READFILE', 'FOR', 'NEXT', ' ', '') or a.startswith('  ')):
             prog.append(a)
         elif a:
             stdin.append(a)
